@@ -123,11 +123,15 @@ def _record(i):
             R0 = [u for u in nodes if s["init"][u - 1] == "R"]
             if R0:
                 kw["initial_recovereds"] = R0
-            r = EoN.fast_nonMarkov_SIR(G, trans_time_fxn=tt, rec_time_fxn=rt, return_full_data=True, **kw)
+            joint = (i % 2 == 1)      # both ways of supplying the rules; the joint rule returns a delay for EVERY susceptible neighbour
+            if joint:
+                r = EoN.fast_nonMarkov_SIR(G, trans_and_rec_time_fxn=jt, return_full_data=True, **kw)
+            else:
+                r = EoN.fast_nonMarkov_SIR(G, trans_time_fxn=tt, rec_time_fxn=rt, return_full_data=True, **kw)
             obs = simruns.observe_full(r, G)
             tr = _trace(obs["hist"], obs["trans"], obs["tree"], s["n"], s["adj"], "SIR", False, event_scn.fl(s["tmin"]),
                         [["I", "R"]], [["I", "S", "I"]], req=s["init"])
-            tr["sim"] = "fast_nonMarkov_SIR(ties)"
+            tr["sim"] = "fast_nonMarkov_SIR(ties, %s rules)" % ("joint" if joint else "separate")
             return tr
         # generic model
         sts, sp, ind = contagion.MODELS[sc["model"]]
